@@ -564,4 +564,244 @@ example :
     gallFin (toICfg rc) s = true ∧ outcomes rc 0 s.log = [.walkOk 0] ∧ outcomes rc 1 s.log = [.walkOk 0] ∧
     callCount (symSlot rc 0 0) s.log = 1 ∧ callCount (symSlot rc 1 0) s.log = 0 := by decide
 
+/-! ### 8.5 "the pending counters end with requested = processed = number of distinct modules asked for" -/
+
+/-- the `symbols` slots of provider `p` that the (compiled) programs mention: one per distinct
+    module key that some `fill_symbol` / `walk_frame` request brings to provider `p` -/
+def symKeys (rc : RCfg) (p : Nat) : List Nat :=
+  (allKeys (compile (toICfg rc))).filter (isSym rc p)
+
+theorem reqCount_eq_callsOf (rc : RCfg) (p : Nat) (log : List Event) :
+    reqCount rc p log = callsOf (isSym rc p) log := rfl
+theorem procCount_eq_retsOf (rc : RCfg) (p : Nat) (log : List Event) :
+    procCount rc p log = retsOf (isSym rc p) log := rfl
+
+/-- **C12.8i** every provider's counters, at every moment: `processed ≤ requested ≤` number of
+    distinct module keys brought to it. `get_file_path` requests never count. -/
+theorem provider_counters (rc : RCfg) (sched : List Nat) (p : Nat) :
+    procCount rc p (rexec rc sched).log ≤ reqCount rc p (rexec rc sched).log ∧
+    reqCount rc p (rexec rc sched).log ≤ (symKeys rc p).length := by
+  have hA := invA_reach (compile (toICfg rc)) sched
+  have hC := countInv_reach (compile (toICfg rc)) sched
+  rw [reqCount_eq_callsOf, procCount_eq_retsOf, rexec_log, callsOf_eq_filter hA hC,
+    retsOf_eq_filter hA hC]
+  constructor
+  · apply filter_length_mono
+    intro k hk
+    simp only [Bool.and_eq_true] at hk ⊢
+    refine ⟨hk.1, ?_⟩
+    cases hs : (exec (compile (toICfg rc)) sched (init (compile (toICfg rc)))).slot k <;>
+      simp_all [Slot.isDone, Slot.nonEmpty]
+  · apply filter_length_mono
+    intro k hk
+    simp only [Bool.and_eq_true] at hk
+    exact hk.1
+
+/-- **C12.8j** once every task has finished: `requested = processed =` that number, per provider -/
+theorem provider_counters_final (rc : RCfg) (sched : List Nat) (p : Nat)
+    (hfin : gallFin (toICfg rc) (rexec rc sched) = true) :
+    reqCount rc p (rexec rc sched).log = (symKeys rc p).length ∧
+    procCount rc p (rexec rc sched).log = (symKeys rc p).length := by
+  have hA := invA_reach (compile (toICfg rc)) sched
+  have hC := countInv_reach (compile (toICfg rc)) sched
+  rw [rexec_allFin] at hfin
+  rw [reqCount_eq_callsOf, procCount_eq_retsOf, rexec_log, callsOf_eq_filter hA hC,
+    retsOf_eq_filter hA hC]
+  unfold symKeys
+  constructor
+  · congr 1
+    apply List.filter_congr
+    intro k hk
+    obtain ⟨r, hr⟩ := all_done_of_allFin hA hfin hk
+    simp [hr, Slot.nonEmpty]
+  · congr 1
+    apply List.filter_congr
+    intro k hk
+    obtain ⟨r, hr⟩ := all_done_of_allFin hA hfin hk
+    simp [hr, Slot.isDone]
+
+/-- the distinct module keys some `fill_symbol` / `walk_frame` request asks for -/
+def askedKeys (rc : RCfg) : List Nat :=
+  dedup ((rc.progs.flatten.filter fun q => match q.kind with
+    | .file _ => false
+    | _ => true).map fun q => rc.key q.mod)
+
+theorem nodup_map_of_inj_on {l : List Nat} (hn : l.Nodup) (f : Nat → Nat)
+    (hinj : ∀ a ∈ l, ∀ b ∈ l, f a = f b → a = b) : (l.map f).Nodup := by
+  induction l with
+  | nil => simp
+  | cons a l ih =>
+    have hn' := List.nodup_cons.mp hn
+    simp only [List.map_cons, List.nodup_cons, List.mem_map]
+    refine ⟨?_, ih hn'.2 (fun x hx y hy => hinj x (List.mem_cons_of_mem _ hx) y (List.mem_cons_of_mem _ hy))⟩
+    rintro ⟨b, hb, he⟩
+    have := hinj b (List.mem_cons_of_mem _ hb) a (by simp) he
+    exact hn'.1 (this ▸ hb)
+
+theorem mem_flatten_prog {rc : RCfg} {q : Req} (h : q ∈ rc.progs.flatten) :
+    ∃ t, t < rc.T ∧ q ∈ rc.prog t := by
+  rw [List.mem_flatten] at h
+  obtain ⟨l, hl, hq⟩ := h
+  obtain ⟨t, ht, rfl⟩ := List.getElem_of_mem hl
+  exact ⟨t, ht, by simp [RCfg.prog, List.getD_eq_getElem?_getD, ht, hq]⟩
+
+theorem zero_mem_specConsulted (rc : RCfg) (q : Req) (hP : 0 < rc.P) : 0 ∈ specConsulted rc q := by
+  unfold specConsulted
+  split
+  · split <;> simp [hP]
+  · simp [hP]
+
+/-- **C12.8k** the property's wording for the first provider — in particular for a plain
+    `Symbolizer`: the number its counters end with is the number of DISTINCT MODULES (distinct
+    `module_key`s) asked for through `fill_symbol` / `walk_frame` -/
+theorem counters_are_distinct_modules {rc : RCfg} (hwf : rc.WF) (hP : 0 < rc.P) :
+    (symKeys rc 0).length = (askedKeys rc).length := by
+  have hnA : (symKeys rc 0).Nodup := List.Nodup.sublist List.filter_sublist (nodup_dedup _)
+  have hkeys : ∀ k ∈ askedKeys rc, k < rc.M := by
+    intro k hk
+    simp only [askedKeys, mem_dedup, List.mem_map, List.mem_filter] at hk
+    obtain ⟨q, ⟨hq, _⟩, rfl⟩ := hk
+    obtain ⟨t, _, hqt⟩ := mem_flatten_prog hq
+    exact key_lt hwf hqt
+  have hnB : ((askedKeys rc).map (symSlot rc 0)).Nodup :=
+    nodup_map_of_inj_on (nodup_dedup _) _
+      (fun a ha b hb h => (symSlot_inj (hkeys a ha) (hkeys b hb) h).2)
+  have hAB : symKeys rc 0 ⊆ (askedKeys rc).map (symSlot rc 0) := by
+    intro s hs
+    simp only [symKeys, List.mem_filter] at hs
+    rcases slot_forms hwf hs.1 with ⟨p', t, q, _, hq, hnf, rfl⟩ | ⟨p', k, fk, _, _, _, rfl⟩ |
+      ⟨t, j, p', fk, m, _, _, _, rfl⟩
+    · have h0 := hs.2
+      rw [isSym_symSlot rc (key_lt hwf hq)] at h0
+      simp only [decide_eq_true_eq] at h0
+      subst h0
+      refine List.mem_map.mpr ⟨rc.key q.mod, ?_, rfl⟩
+      simp only [askedKeys, mem_dedup, List.mem_map, List.mem_filter]
+      refine ⟨q, ⟨List.mem_flatten.mpr ⟨_, rc_prog_mem hq, hq⟩, ?_⟩, rfl⟩
+      cases hk : q.kind with
+      | file fk => exact absurd hk (hnf fk)
+      | fill => rfl
+      | walk => rfl
+    · have := hs.2; rw [isSym_fileSlot] at this; cases this
+    · have := hs.2; rw [isSym_privSlot] at this; cases this
+  have hBA : (askedKeys rc).map (symSlot rc 0) ⊆ symKeys rc 0 := by
+    intro s hs
+    obtain ⟨k, hk, rfl⟩ := List.mem_map.mp hs
+    have hkM := hkeys k hk
+    simp only [askedKeys, mem_dedup, List.mem_map, List.mem_filter] at hk
+    obtain ⟨q, ⟨hq, hkind⟩, rfl⟩ := hk
+    obtain ⟨t, ht, hqt⟩ := mem_flatten_prog hq
+    simp only [symKeys, List.mem_filter, isSym_symSlot rc hkM, decide_true, and_true]
+    apply mem_allKeys_of_prog (t := t)
+    rw [compile_prog, toICfg_prog rc ht, compS_expandFrom hwf ht 0 (rc.prog t) (by intro i _; simp)]
+    obtain ⟨j, hj, hjq⟩ := List.getElem_of_mem hqt
+    rw [List.mem_flatMap]
+    refine ⟨(q, j), List.mem_zipIdx_iff_getElem?.mpr (by simp [List.getElem?_eq_getElem hj, hjq]), ?_⟩
+    rw [List.mem_map]
+    refine ⟨0, zero_mem_specConsulted rc q hP, ?_⟩
+    cases hk : q.kind with
+    | file fk => simp [hk] at hkind
+    | fill => simp [reqItem, hk]
+    | walk => simp [reqItem, hk]
+  have h1 := hnA.length_le_of_subset hAB
+  have h2 := hnB.length_le_of_subset hBA
+  simp only [List.length_map] at h1 h2
+  omega
+
+/-- non-vacuity: a plain symbolizer; three tasks, four modules of which two have the same key
+    (no code file / empty code file) and one is only asked for through `get_file_path`:
+    requested = processed = 2 distinct modules. -/
+example :
+    let prov : Prov := ⟨fun _ => ⟨1, .ok⟩, fun _ => true, fun _ _ => ⟨1, .notFound⟩, false⟩
+    let rc : RCfg := ⟨[⟨.absent, some 0, some 0, some 0⟩, ⟨.empty, some 0, some 0, some 0⟩,
+        ⟨.path 0 1, some 1, some 1, some 1⟩, ⟨.path 0 2, some 2, some 2, some 2⟩], [prov],
+      [[⟨.fill, 0⟩, ⟨.walk, 2⟩], [⟨.walk, 1⟩, ⟨.file 1, 3⟩], [⟨.fill, 2⟩]]⟩
+    let s := rexec rc [0, 1, 2, 0, 1, 2, 0, 1, 2, 0, 1, 2, 0, 1, 2, 0, 1]
+    gallFin (toICfg rc) s = true ∧ reqCount rc 0 s.log = 2 ∧ procCount rc 0 s.log = 2 ∧
+      (askedKeys rc).length = 2 ∧ (symKeys rc 0).length = 2 := by decide
+
+/-! ### 8.6 "No request is lost or deadlocks" at the level of requests -/
+
+/-- **C12.8l** after any schedule the completion phase ends with every task finished: every
+    request of every kind, through any number of providers, is answered -/
+theorem requests_finish (rc : RCfg) (sched : List Nat) :
+    gallFin (toICfg rc) (gfinish (toICfg rc) (gfuel (toICfg rc)) (rexec rc sched)) = true :=
+  g_round_robin_finishes (toICfg rc) sched
+
+theorem requests_no_lost_wakeup (rc : RCfg) (sched : List Nat)
+    (hnf : gallFin (toICfg rc) (rexec rc sched) = false) :
+    grunnable (toICfg rc) (rexec rc sched) ≠ [] :=
+  g_runnable_nonempty (toICfg rc) sched hnf
+
+/-! ### 8.7 `stats()` after the run
+
+  Keyed by `leafname(code_file)` (NOT by the module key); one insert-overwrite per returned
+  `locate_symbols`, inside the `get_symbols` closure. -/
+
+theorem ret_sym_form {rc : RCfg} (hwf : rc.WF) (sched : List Nat) {p s : Nat}
+    (hr : Event.ret s ∈ (rexec rc sched).log) (hs : isSym rc p s = true) :
+    ∃ t q, q ∈ rc.prog t ∧ s = symSlot rc p (rc.key q.mod) := by
+  rw [rexec_log] at hr
+  exact sym_slot_form hwf
+    (ret_mem_allKeys (invA_reach _ sched) (countInv_reach _ sched) hr) hs
+
+/-- **C12.8m** `stats_match_outcomes`: if distinct module keys have distinct code-file leaf names,
+    then at every moment (a) the entry of a module whose `locate_symbols` has returned is the one
+    outcome that supplier gave — which is what every requester observed (C12.8f) — and (b) there
+    is no other entry. (Without the hypothesis this fails: finding F16, owned by C13.) -/
+theorem stats_match_outcomes {rc : RCfg} (hwf : rc.WF) (hdist : rc.LeafDistinct) (sched : List Nat)
+    (p : Nat) :
+    (∀ t q, q ∈ rc.prog t → Event.ret (symSlot rc p (rc.key q.mod)) ∈ (rexec rc sched).log →
+      statGet (statWrites rc p (rexec rc sched).log) (leafOfKey rc (rc.key q.mod)) =
+        some ((rc.prov p).sym (rc.key q.mod)).res) ∧
+    (∀ l r, statGet (statWrites rc p (rexec rc sched).log) l = some r →
+      ∃ t q, q ∈ rc.prog t ∧ Event.ret (symSlot rc p (rc.key q.mod)) ∈ (rexec rc sched).log ∧
+        l = leafOfKey rc (rc.key q.mod) ∧ r = ((rc.prov p).sym (rc.key q.mod)).res) := by
+  -- every write comes from a returned call of a module some request names
+  have hform : ∀ l r, (l, r) ∈ statWrites rc p (rexec rc sched).log →
+      ∃ t q, q ∈ rc.prog t ∧ Event.ret (symSlot rc p (rc.key q.mod)) ∈ (rexec rc sched).log ∧
+        l = leafOfKey rc (rc.key q.mod) ∧ r = ((rc.prov p).sym (rc.key q.mod)).res := by
+    intro l r hm
+    obtain ⟨s, hret, hs, rfl, rfl⟩ := mem_statWrites.mp hm
+    obtain ⟨t, q, hq, rfl⟩ := ret_sym_form hwf sched hret hs
+    have hk := key_lt hwf hq
+    refine ⟨t, q, hq, hret, ?_, ?_⟩
+    · rw [symSlot_div, pair_mod hk]
+    · rw [slotSup_sym rc hk]
+  constructor
+  · intro t q hq hret
+    have hk := key_lt hwf hq
+    apply statGet_of_unique
+    · refine ⟨_, mem_statWrites.mpr ⟨_, hret, by rw [isSym_symSlot rc hk]; simp, ?_, rfl⟩⟩
+      rw [symSlot_div, pair_mod hk]
+    · intro r' hm
+      obtain ⟨t', q', hq', _, hl, hr⟩ := hform _ _ hm
+      have hm1 : q.mod < rc.M := (hwf _ (rc_prog_mem hq) q hq).1
+      have hm2 : q'.mod < rc.M := (hwf _ (rc_prog_mem hq') q' hq').1
+      have := hdist q.mod q'.mod hm1 hm2 hl
+      rw [hr, this]
+  · intro l r h
+    exact hform l r (statGet_some_mem h)
+
+/-- non-vacuity (two modules, distinct leaves, one `ParseError`, one `Ok`; both hypotheses hold) and
+    the reason for the hypothesis: with the SAME leaf name and different outcomes the entry
+    depends on which call returned last. -/
+example :
+    let prov : Prov := ⟨fun k => ⟨1, if k = 0 then .parseError else .ok⟩, fun _ => true, fun _ _ => ⟨0, .notFound⟩, false⟩
+    let rc : RCfg := ⟨[⟨.path 0 0, some 0, some 0, some 0⟩, ⟨.path 0 1, some 1, some 1, some 1⟩], [prov],
+      [[⟨.fill, 0⟩], [⟨.walk, 1⟩, ⟨.fill, 0⟩]]⟩
+    let s := rexec rc [0, 1, 0, 1, 1]
+    gallFin (toICfg rc) s = true ∧
+    statGet (statWrites rc 0 s.log) (some 0) = some .parseError ∧
+    statGet (statWrites rc 0 s.log) (some 1) = some .ok ∧
+    statGet (statWrites rc 0 s.log) none = none := by decide
+
+example :
+    let prov : Prov := ⟨fun k => ⟨1, if k = 0 then .parseError else .ok⟩, fun _ => true, fun _ _ => ⟨0, .notFound⟩, false⟩
+    -- same leaf `m0.so` in two directories: two different modules, one statistics key
+    let rc : RCfg := ⟨[⟨.path 0 0, some 0, some 0, some 0⟩, ⟨.path 1 0, some 1, some 1, some 1⟩], [prov],
+      [[⟨.fill, 0⟩], [⟨.fill, 1⟩]]⟩
+    statGet (statWrites rc 0 (rexec rc [0, 1, 0, 1]).log) (some 0) = some .ok ∧
+    statGet (statWrites rc 0 (rexec rc [1, 0, 1, 0]).log) (some 0) = some .parseError := by decide
+
 end MdModel.Once
